@@ -574,6 +574,7 @@ func init() {
 		Name: "v1",
 		Run: func(c *Ctx) {
 			c.Rule("generated scripts (if/else, three loop forms with break/continue, && || ?:, try/catch/finally with throw/return, function literals calling each other, source module) compiled with and without the optimizer; every function down-converted to the version-1 layout by an independent relocator; (a) converter output per function and on malformed byte strings vs Lean model convFn, (b) decoded-from-v1 program vs original on 4 argument pairs each: outcome and stack-trace positions; distinct = (jump count, length) classes of converted functions + malformed classes")
+			v1GoldenOracle(c)
 			for i, src := range v1Fixed {
 				for _, no := range []bool{false, true} {
 					v1Program(c, v1case{script: v1script{Main: src}, noOpt: no}, fmt.Sprintf("fixed#%d", i))
